@@ -1164,6 +1164,57 @@ Proof.
   rewrite T. tauto.
 Qed.
 
+(* C07 with the cap of the property text ([cap_prop]: the exact (1 + mi) * total / 2 rounded once),
+   on the inputs where the code's cap (three roundings) does not exceed it -- decidable from the
+   input, evaluated for every case by the run glue; always the case without max_imbalance.
+   Beyond: C07_cap_exact_refuted_above_2p53 in Properties/C07.v. *)
+Theorem fm_sound_prop cfg fuel g ws p0 orc cap capp p mpp rpp : fm_contract g ws p0 ->
+  fm_cap (fm_max_imb cfg) (load ws p0 0, load ws p0 1) = Some cap ->
+  cap_prop (fm_max_imb cfg) (load ws p0 0, load ws p0 1) = Some capp ->
+  cap <= capp ->
+  fm cfg fuel g ws p0 orc = Ok (FmOk p mpp rpp) ->
+  length p = length p0 /\ two_way p
+  /\ edge_cut g p <= edge_cut g p0
+  /\ (forall q, (q <= 1)%N -> load ws p q <= Z.max (load ws p0 q) capp)
+  /\ metadata_ok (fm_max_passes cfg) (fm_max_moves cfg) p0 p mpp rpp.
+Proof.
+  intros C Hcap Hp Hle H.
+  destruct (fm_sound cfg fuel g ws p0 orc cap p mpp rpp C Hcap H) as (A & B & D & E & F).
+  split; [exact A|]. split; [exact B|]. split; [exact D|]. split; [|exact F].
+  intros q Hq. specialize (E q Hq). lia.
+Qed.
+
+(* without max_imbalance the two caps are the same: the heaviest input part *)
+Lemma cap_prop_none pw : cap_prop None pw = fm_cap None pw.
+Proof. reflexivity. Qed.
+
+Theorem fm_sound_prop_none cfg fuel g ws p0 orc capp p mpp rpp : fm_contract g ws p0 ->
+  fm_max_imb cfg = None ->
+  cap_prop None (load ws p0 0, load ws p0 1) = Some capp ->
+  fm cfg fuel g ws p0 orc = Ok (FmOk p mpp rpp) ->
+  length p = length p0 /\ two_way p
+  /\ edge_cut g p <= edge_cut g p0
+  /\ (forall q, (q <= 1)%N -> load ws p q <= Z.max (load ws p0 q) capp)
+  /\ metadata_ok (fm_max_passes cfg) (fm_max_moves cfg) p0 p mpp rpp.
+Proof.
+  intros C Hn Hp H.
+  apply (fm_sound_prop cfg fuel g ws p0 orc capp capp p mpp rpp C); rewrite ?Hn; try assumption; try lia.
+Qed.
+
+(* the boolean contract of the run glue implies the contract of the theorems *)
+Lemma fm_contractb_ok g ws p0 :
+  wf_graphb g (length p0) = true -> length g = length p0 -> rows_sortedb g = true -> symmetricb g = true
+  -> no_self_loopb g = true -> pos_edgesb g = true -> forallb (fun w => 0 <=? w) ws = true ->
+  fm_contract g ws p0.
+Proof.
+  intros H1 HL H2 H3 H4 H5 H6. unfold fm_contract.
+  apply wf_graphb_ok in H1. split; [exact H1|]. split; [apply rows_sortedb_ok; exact H2|].
+  split; [apply symmetricb_ok; [rewrite HL; exact H1|exact H3]|].
+  split; [apply no_self_loopb_ok; exact H4|].
+  split; [apply pos_nonneg_edges, pos_edgesb_ok; exact H5|].
+  rewrite forallb_forall in H6. apply Forall_forall. intros w Hw. apply Z.leb_le. auto.
+Qed.
+
 (* ============================ every state an execution of a pass goes through *)
 
 Definition with_nbad (st : fm_st) (x : N) : fm_st :=
